@@ -687,8 +687,9 @@ def res_template_nolocals(res, e):
 
 
 class CppExpr:
-    """Tiny evaluator for the #if expressions guarding the trace macros (identifiers, integers, ! && || ( ) defined)."""
-    TOK = re.compile(r'\s*(?:(0[xX][0-9a-fA-F]+|\d+)[uUlL]*|([A-Za-z_]\w*)|(&&|\|\||[!()]))')
+    """Tiny evaluator for the #if expressions guarding the trace macros (identifiers, integers, ! && || ( ) defined, comparisons of integers)."""
+    TOK = re.compile(r'\s*(?:(0[xX][0-9a-fA-F]+|\d+)[uUlL]*|([A-Za-z_]\w*)|(&&|\|\||<=|>=|==|!=|[<>]|[!()]))')
+    CMP = {'<': lambda a, b: a < b, '<=': lambda a, b: a <= b, '>': lambda a, b: a > b, '>=': lambda a, b: a >= b, '==': lambda a, b: a == b, '!=': lambda a, b: a != b}
 
     def __init__(self, text, env):
         self.toks = []
@@ -725,11 +726,19 @@ class CppExpr:
         return v
 
     def and_(self):
-        v = self.unary()
+        v = self.cmp_()
         while self.peek() == '&&':
             self.take()
-            w = self.unary()
+            w = self.cmp_()
             v = bool(v) and bool(w)
+        return v
+
+    def cmp_(self):
+        v = self.unary()
+        while self.peek() in self.CMP:
+            op = self.take()
+            w = self.unary()
+            v = int(self.CMP[op](int(v), int(w)))
         return v
 
     def unary(self):
@@ -790,6 +799,17 @@ def rule_macros(ctx):
     if len(uses) < 12:
         raise AnalysisError('only %d distinct trace macros are emitted by the compiler' % len(uses))
     configs = [dict(zip(CONFIG_VARS, bits)) for bits in itertools.product((0, 1), repeat=3)]
+    # a trace macro that is defined per Python version (`#if PY_VERSION_HEX >= ...` around its definitions): the version joins the configuration space, with one
+    # representative on each side of every threshold the conditions of the emitted macros compare it with
+    thresholds = set()
+    for name in uses:
+        for d in cat.decls.get(name, []):
+            if d.kind == 'macro' and d.file == 'Profile.c':
+                for c in d.conds or ():
+                    for mm in re.finditer(r'\bPY_VERSION_HEX\s*(?:<=|>=|==|!=|<|>)\s*(0[xX][0-9a-fA-F]+|\d+)|(0[xX][0-9a-fA-F]+|\d+)\s*(?:<=|>=|==|!=|<|>)\s*PY_VERSION_HEX\b', c):
+                        thresholds.add(int(mm.group(1) or mm.group(2), 0))
+    versions = sorted({v for t in thresholds for v in (t - 1, t, t + 1)}) or [None]
+    configs = [dict(env, PY_VERSION_HEX=v) if v is not None else env for env in configs for v in versions]
 
     def arity(name, env, depth=0):
         """-> list of arities ('obj' | int) of the definitions of `name` active under env (alias-resolved)"""
@@ -821,6 +841,8 @@ def rule_macros(ctx):
         problems = {}
         for env in configs:
             cfg = '/'.join('%s=%d' % (k.replace('CYTHON_', '').replace('USE_SYS_', ''), env[k]) for k in CONFIG_VARS)
+            if 'PY_VERSION_HEX' in env:
+                cfg += '/PY_VERSION_HEX=0x%08x' % env['PY_VERSION_HEX']
             ar = arity(name, env)
             if len(ar) == 0:
                 problems.setdefault(('undefined', None, None), []).append(cfg)
@@ -843,7 +865,9 @@ def rule_macros(ctx):
                 r.violate(name + ':arity', 'Cython/Utility/Profile.c', line,
                           '%s emits %s with %s but in %s the macro takes %s: the generated C does not compile' % (x[1], name, fmt(x[0]), where_cfg, fmt(y)))
     pc = cond_active(('if CYTHON_PROFILE || CYTHON_TRACE', 'if CYTHON_USE_SYS_MONITORING; else '), dict(CYTHON_PROFILE=1, CYTHON_TRACE=0, CYTHON_USE_SYS_MONITORING=1))
-    r.positive_control(pc is False and cond_active(('if !CYTHON_TRACE',), dict(CYTHON_PROFILE=0, CYTHON_TRACE=0, CYTHON_USE_SYS_MONITORING=0)), 'conditional chain evaluation')
+    r.positive_control(pc is False and cond_active(('if !CYTHON_TRACE',), dict(CYTHON_PROFILE=0, CYTHON_TRACE=0, CYTHON_USE_SYS_MONITORING=0)) and
+                       cond_active(('if PY_VERSION_HEX >= 0x030b00a2; else ',), dict(PY_VERSION_HEX=0x030a0000)) and
+                       not cond_active(('if PY_VERSION_HEX >= 0x030b00a2 && !CYTHON_TRACE',), dict(PY_VERSION_HEX=0x030a0000, CYTHON_TRACE=0)), 'conditional chain evaluation')
     return r
 
 
